@@ -34,6 +34,7 @@ func New(directory string, filename string) *Configuration {
 	if err != nil {
 		return newConfiguration
 	}
+	defer file.Close()
 
 	decoder := yaml.NewDecoder(file)
 	if err = decoder.Decode(newConfiguration); err != nil {
